@@ -50,6 +50,14 @@ known("KF7-unbuffered-negative-cycle-decision-differs", ["C04"],
       match_any=[{"clause": "mode-dependent", "variant": v, "error": "NegativeCycle", "site": "engine_stack.py:checkCycle", "cyclic": True}
                  for v in UNB])
 
+known("KF8-keep-all-not-neutral", ["C06"],
+      "keep_all=True is not semantics-neutral: deterministic facts are kept as atoms with probability None whose positive and negative weights are both one, so unnormalised results are multiplied (P = 2.0); combined with propagate_weights, Semiring.value(None) raises TypeError; DDNNF set_evidence raises TypeError on such atoms",
+      "0.5::f. d(c1). d(c2). r(Y) :- d(Y), f, d(X). query(r(c1)).  LogicFormula.create_from(..., keep_all=True)",
+      match_any=[{"clause": c, "keep_all": True} for c in ["prob", "crash", "option-dependent", "spurious-answer", "missing-instance", "answered-inconsistent-evidence", "spurious-inconsistent-evidence", "wrong-error"]])
+
+fixed("FX3-symbolic-normalize-parentheses", ["C05"], "75632d5",
+      "SemiringSymbolic.normalize printed a / z without parentheses around a product z: expression evaluates to a wrong number",
+      "0.6::f. 0.8::h(c2). 0.1::a. p :- h(c2), f. query(a). evidence(p).  symbolic result 0.8*0.6*0.1 / 0.8*0.6*(0.1 + (1-0.1)) = 0.036, expected 0.1")
 fixed("FX1-break-cycles-true-child", ["C01", "C09"], "29bdee9",
       "AssertionError in LogicFormula.get_node(0) from _break_cycles when a disjunction below an evidence node contains the TRUE node",
       "0.1::h(c1). d(c1). d(c2). p(X) :- d(X), r(c1). p(Y) :- d(Y). r(X) :- p(X). r(Y) :- d(Y), h(X). query(p(c1)). evidence(r(c1)).")
